@@ -365,6 +365,12 @@ func (e *kvElection) becomeLeader(token string, rev uint64) {
 		}
 	}
 
+	// A stopped election stays stopped: an acquisition that was still in flight
+	// when Stop/StopWithContext ran must not claim leadership afterwards.
+	if fromState == StateStopped {
+		return
+	}
+
 	e.isLeader.Store(true)
 	e.leaderID.Store(e.cfg.InstanceID)
 	e.token.Store(token)
@@ -483,6 +489,12 @@ func (e *kvElection) becomeFollower() {
 		if str, ok := s.(string); ok {
 			fromState = str
 		}
+	}
+
+	// A stopped election stays stopped: a late acquisition failure must not
+	// turn it into a follower again or restart the watcher.
+	if fromState == StateStopped {
+		return
 	}
 
 	wasLeader := e.isLeader.Load()
